@@ -1,11 +1,15 @@
 /-
-  Whole-run theorems for the complete model of `ParallelTemperingOptimizer` (GFO.Model.Population: a round-robin over
-  complete `SimulatedAnnealingOptimizer` systems on one shared oracle tape), through the real driver model, for every
-  population, configuration, objective, call, prior state and tape:
+  Whole-run theorems for the complete POPULATION models (GFO.Model.Population): `ParallelTemperingOptimizer`
+  (round-robin over complete SimulatedAnnealing systems), `ParticleSwarmOptimizer` and `SpiralOptimization` (after fix
+  d993248), on one shared oracle tape, through the real driver model, for every population size, configuration, objective,
+  call, prior state and tape:
 
-    C01_C02_pt_positions      every position a call evaluates is a feasible position of the space
-    C19_pt_members_grounded   after the call the tracked best / current pair and the valid lists of EVERY system are
-                              (position, score) pairs the optimizer really evaluated (or still `(None, -inf)`)
+    C01_C02_*_positions        every position a call evaluates is a feasible position of the space
+    C19_*_members_grounded     after the call the tracked best / current pair and the valid lists of EVERY member are
+                               (position, score) pairs the optimizer really evaluated (or still `(None, -inf)`)
+
+  The three optimizers are instances of one contract (`PopOK`): what `init_pos`, `evaluate_init`, `iterate`, `evaluate` of a
+  population optimizer must do to the member list for the run invariant to hold.
 -/
 import GFO.Model.Population
 import GFO.Props.LocalRuns
@@ -29,7 +33,41 @@ theorem pick_spec {s : PopSt} {idx : Nat} {m : Local} (h : s.pick = .ok (idx, m)
         · exact Nat.mod_lt _ h0⟩
     · simp at h
 
-/-- the run invariant of the population -/
+/-- the tracked pairs and valid lists of two trackers coincide (they may differ in `pos_new`, `score_new`, counters) -/
+structure SameTracked (t t' : Tracker) : Prop where
+  pb : t'.posBest = t.posBest
+  sb : t'.scoreBest = t.scoreBest
+  pc : t'.posCurrent = t.posCurrent
+  sc : t'.scoreCurrent = t.scoreCurrent
+  pv : t'.positionsValid = t.positionsValid
+  sv : t'.scoresValid = t.scoresValid
+
+theorem SameTracked.grounded {log : Log} {t t' : Tracker} (h : SameTracked t t') (g : Grounded log t) : Grounded log t' :=
+  { best := by rw [h.pb, h.sb]; exact g.best, current := by rw [h.pc, h.sc]; exact g.current
+    valid := by rw [h.pv, h.sv]; exact g.valid, validLen := by rw [h.pv, h.sv]; exact g.validLen }
+
+theorem sameTracked_trackNewPos (t : Tracker) (p : Pos) : SameTracked t (t.trackNewPos p) :=
+  { pb := rfl, sb := rfl, pc := rfl, sc := rfl, pv := rfl, sv := rfl }
+
+/-- the contract of a population backend w.r.t. a space and a constraint -/
+structure PopOK (b : Backend PopSt) (sp : Space) (f : Pos → Bool) : Prop where
+  initPos : ∀ s p s', b.initPos s = .ok (p, s') →
+    ∃ idx m m', s.members[idx]? = some m ∧ idx < s.members.length ∧ p ∈ m.initL ∧
+      s'.members = s.members.set idx m' ∧ m'.initL = m.initL ∧ m'.tr.posNew = some p ∧ SameTracked m.tr m'.tr ∧
+      s'.cur = idx ∧ s'.tape = s.tape
+  evalInit : ∀ s score s', b.evalInit s score = .ok s' →
+    ∃ m m', s.members[s.cur]? = some m ∧ s'.members = s.members.set s.cur m' ∧ m'.initL = m.initL ∧
+      m'.tr = Tracker.evaluateInit m.tr score ∧ s'.tape = s.tape
+  finishInit : ∀ s s', b.finishInit s = .ok s' → s' = s
+  iterate : ∀ s p s', TapeOK sp f s.tape → b.iterate s = .ok (p, s') →
+    ∃ idx m m', s.members[idx]? = some m ∧ idx < s.members.length ∧
+      s'.members = s.members.set idx m' ∧ m'.initL = m.initL ∧ m'.tr.posNew = some p ∧ SameTracked m.tr m'.tr ∧
+      s'.cur = idx ∧ s'.tape <:+ s.tape ∧ InSpace sp p ∧ f p = true
+  evaluate : ∀ s score s', b.evaluate s score = .ok s' →
+    ∃ m m', s.members[s.cur]? = some m ∧ s'.members = s.members.set s.cur m' ∧ m'.initL = m.initL ∧ s'.tape <:+ s.tape ∧
+      ∀ log, Grounded log m.tr → Grounded (log ++ [(m.tr.posNew, score)]) m'.tr
+
+/-- the run invariant of a population -/
 structure Inv (tape0 : Tape) (inits0 : List (List Pos)) (d : DState PopSt) : Prop where
   tape : d.bst.tape <:+ tape0
   inits : d.bst.members.map (·.initL) = inits0
@@ -51,6 +89,139 @@ theorem map_initL_set (ms : List Local) (idx : Nat) (m m' : Local) (hm : ms[idx]
       rw [List.getElem?_map, List.getElem?_eq_none (by omega)]; rfl
   · rw [List.getElem?_set_ne hk]
 
+theorem mem_set_cases {α : Type} {ms : List α} {idx : Nat} {a x : α} (h : x ∈ ms.set idx a) : x = a ∨ x ∈ ms := by
+  rcases List.mem_or_eq_of_mem_set h with h | h
+  · exact Or.inr h
+  · exact Or.inl h
+
+/-- one driver step of ANY population backend that meets the contract keeps the invariant and emits a feasible position
+    of the space -/
+theorem step_inv {b : Backend PopSt} {sp : Space} {obj : Obj} {c : Call} {f : Pos → Bool} {tape0 : Tape} {inits0 : List (List Pos)}
+    (hb : PopOK b sp f) (ht : TapeOK sp f tape0) (hi : ∀ l ∈ inits0, ∀ q ∈ l, InSpace sp q ∧ f q = true)
+    (i : Nat) (d d1 : DState PopSt) (cs cs1 : CState) (p : Pos) (v : Value) (e : Eval)
+    (hP : Inv tape0 inits0 d) (sf : StepFacts sp obj c i d d1 cs cs1 p v e)
+    (hs : BStep b (i < cs.nInitsNorm) d.bst d1.bst p e.res.score) :
+    Inv tape0 inits0 d1 ∧ (InSpace sp p ∧ f p = true) := by
+  have hlog := evalLog_append hP.len sf.posL sf.scoreL
+  have hlen : d1.posL.length = d1.scoreL.length := by rw [sf.posL, sf.scoreL]; simp [hP.len]
+  rcases hs with ⟨_, s1, h1, h2⟩ | ⟨_, s0, s1, h0, h1, h2⟩
+  · -- start-up step
+    obtain ⟨idx, m, m', hget, hidx, hmem, hset, hil, hpn, hst, hcur, htape⟩ := hb.initPos _ _ _ h1
+    obtain ⟨mm, m2, hmm, hset2, hil2, htr2, htape2⟩ := hb.evalInit _ _ _ h2
+    rw [hcur, hset, List.getElem?_set_self hidx, Option.some.injEq] at hmm
+    subst hmm
+    have hml : m.initL ∈ inits0 := by
+      rw [← hP.inits]; exact List.mem_map.mpr ⟨m, List.mem_of_getElem? hget, rfl⟩
+    refine ⟨{ tape := ?_, inits := ?_, len := hlen, grounded := ?_ }, hi _ hml p hmem⟩
+    · rw [htape2, htape]; exact hP.tape
+    · rw [hset2, hset, hcur, List.set_set, map_initL_set d.bst.members idx m _ hget (by rw [hil2, hil])]
+      exact hP.inits
+    · rw [hset2, hset, hcur, List.set_set, hlog]
+      intro x hx
+      rcases mem_set_cases hx with hx | hx
+      · subst hx
+        rw [htr2]
+        have g1 : Grounded (evalLog d) m'.tr := hst.grounded (hP.grounded m (List.mem_of_getElem? hget))
+        have := grounded_evaluateInit g1 e.res.score
+        rwa [hpn] at this
+      · exact (hP.grounded x hx).mono _
+  · -- iteration step
+    have hs0 : s0 = d.bst := by
+      rcases h0 with h0 | h0
+      · exact h0
+      · exact hb.finishInit _ _ h0
+    subst hs0
+    obtain ⟨idx, m, m', hget, hidx, hset, hil, hpn, hst, hcur, hsuf, hin, hfe⟩ := hb.iterate _ _ _ (ht.suffix hP.tape) h1
+    obtain ⟨mm, m2, hmm, hset2, hil2, hsuf2, hgr⟩ := hb.evaluate _ _ _ h2
+    rw [hcur, hset, List.getElem?_set_self hidx, Option.some.injEq] at hmm
+    subst hmm
+    refine ⟨{ tape := ?_, inits := ?_, len := hlen, grounded := ?_ }, hin, hfe⟩
+    · exact (hsuf2.trans hsuf).trans hP.tape
+    · rw [hset2, hset, hcur, List.set_set, map_initL_set d.bst.members idx m _ hget (by rw [hil2, hil])]
+      exact hP.inits
+    · rw [hset2, hset, hcur, List.set_set, hlog]
+      intro x hx
+      rcases mem_set_cases hx with hx | hx
+      · subst hx
+        have g1 : Grounded (evalLog d) m'.tr := hst.grounded (hP.grounded m (List.mem_of_getElem? hget))
+        have := hgr _ g1
+        rwa [hpn] at this
+      · exact (hP.grounded x hx).mono _
+
+/-- C01 + C02 + C19 for one `search()` call of any population backend meeting the contract -/
+theorem pop_call {b : Backend PopSt} {sp : Space} {obj : Obj} {c : Call} {f : Pos → Bool} {tape0 : Tape} {inits0 : List (List Pos)}
+    {d d' : DState PopSt} {r : CallResult}
+    (hb : PopOK b sp f) (ht : TapeOK sp f tape0) (hi : ∀ l ∈ inits0, ∀ q ∈ l, InSpace sp q ∧ f q = true)
+    (hP : Inv tape0 inits0 d) (hn : 0 < c.nIter) (h : searchCall b sp obj c d = .ok (d', r)) :
+    Inv tape0 inits0 d' ∧ ∀ p ∈ C04.newPos d d', InSpace sp p ∧ f p = true := by
+  obtain ⟨cs, d1, cs1, tr, _, hfin, T, hP1, hQ⟩ :=
+    searchCall_inv (P := fun d _ => Inv tape0 inits0 d) (Q := fun t => InSpace sp t.pos ∧ f t.pos = true)
+      (fun i d d1 cs cs1 p v e hp sf hs => step_inv hb ht hi i d d1 cs cs1 p v e hp sf hs) h hn (fun _ _ => hP)
+  obtain ⟨hrows, hposL, hscoreL, _, _, _, _, _, _, _, hbst, _⟩ := finishSearch_ok hfin
+  constructor
+  · exact { tape := by rw [hbst]; exact hP1.tape, inits := by rw [hbst]; exact hP1.inits
+            len := by rw [hposL, hscoreL]; exact hP1.len
+            grounded := by
+              have := hP1.grounded
+              unfold evalLog at this ⊢
+              rw [hposL, hscoreL, hbst]; exact this }
+  · intro p hp
+    unfold C04.newPos at hp
+    rw [hposL, T.posL] at hp
+    simp only [List.drop_left] at hp
+    obtain ⟨t, ht', rfl⟩ := List.mem_map.mp hp
+    exact hQ t ht'
+
+/-- a freshly constructed population satisfies the invariant -/
+theorem inv_fresh (nInits : Nat) (inits : List (List Pos)) (tape : Tape) :
+    Inv tape inits ({ nInits := nInits, bst := { members := inits.map (fun l => { initL := l }), tape := tape } } : DState PopSt) :=
+  { tape := List.suffix_refl _
+    inits := by simp [List.map_map, Function.comp_def]
+    len := rfl
+    grounded := by
+      intro m hm
+      obtain ⟨l, _, rfl⟩ := List.mem_map.mp hm
+      simpa [evalLog] using grounded_fresh }
+
+/-! ### the three optimizers meet the contract -/
+
+theorem ptInitPos_ok {s s' : PopSt} {p : Pos} (h : ptInitPos s = .ok (p, s')) :
+    ∃ idx m m', s.members[idx]? = some m ∧ idx < s.members.length ∧ p ∈ m.initL ∧
+      s'.members = s.members.set idx m' ∧ m'.initL = m.initL ∧ m'.tr.posNew = some p ∧ SameTracked m.tr m'.tr ∧
+      s'.cur = idx ∧ s'.tape = s.tape := by
+  unfold ptInitPos at h
+  simp only [bind, Except.bind, pure, Except.pure] at h
+  cases hpk : s.pick with
+  | error e => rw [hpk] at h; simp at h
+  | ok x =>
+    obtain ⟨idx, m⟩ := x
+    rw [hpk] at h
+    simp only at h
+    cases hip : localInitPos m with
+    | error e => rw [hip] at h; simp at h
+    | ok y =>
+      obtain ⟨q, m'⟩ := y
+      rw [hip] at h
+      simp only [Except.ok.injEq, Prod.mk.injEq] at h
+      obtain ⟨e1, e2⟩ := h
+      subst e1 e2
+      obtain ⟨hget, hidx⟩ := pick_spec hpk
+      obtain ⟨hq, _, htr, hil, _⟩ := localInitPos_spec hip
+      exact ⟨idx, m, m', hget, hidx, List.mem_of_getElem? hq, rfl, hil, by rw [htr]; rfl,
+        by rw [htr]; exact sameTracked_trackNewPos _ _, rfl, rfl⟩
+
+theorem ptEvalInit_ok {s s' : PopSt} {score : F} (h : ptEvalInit s score = .ok s') :
+    ∃ m m', s.members[s.cur]? = some m ∧ s'.members = s.members.set s.cur m' ∧ m'.initL = m.initL ∧
+      m'.tr = Tracker.evaluateInit m.tr score ∧ s'.tape = s.tape := by
+  unfold ptEvalInit at h
+  cases hm : s.members[s.cur]? with
+  | none => rw [hm] at h; simp at h
+  | some m =>
+    rw [hm] at h
+    simp only [Except.ok.injEq] at h
+    subst h
+    exact ⟨m, _, rfl, rfl, rfl, rfl, rfl⟩
+
 /-- the swap only consumes draws -/
 theorem swapDraws_suffix : ∀ (n : Nat) (t r : Tape), swapDraws n t = .ok r → r <:+ t := by
   intro n
@@ -68,11 +239,35 @@ theorem swapDraws_suffix : ∀ (n : Nat) (t r : Tape), swapDraws n t = .ok r →
       | rnd _ => simp [swapDraws] at h
       | feas _ _ => simp [swapDraws] at h
       | accept _ _ => simp [swapDraws] at h
+      | part _ _ => simp [swapDraws] at h
+      | spiral _ => simp [swapDraws] at h
 
-theorem ptEvaluate_spec {cfg : PTCfg} {s s' : PopSt} {score : F} (h : ptEvaluate cfg s score = .ok s') :
-    ∃ m tape1 m', s.members[s.cur]? = some m ∧ tape1 <:+ s.tape ∧
-      localEvaluate cfg.member { m with tape := tape1 } score = .ok m' ∧
-      s'.members = s.members.set s.cur { m' with tape := [] } ∧ s'.tape = m'.tape := by
+theorem ptEvalMember_ok {cfg : PTCfg} {s s' : PopSt} {t1 : Tracker} {tape1 : Tape} {score : F} (hs1 : tape1 <:+ s.tape)
+    (h : ptEvalMember cfg s t1 tape1 score = .ok s') :
+    ∃ m m', s.members[s.cur]? = some m ∧ s'.members = s.members.set s.cur m' ∧ m'.initL = m.initL ∧ s'.tape <:+ s.tape ∧
+      ∀ log, Grounded log m.tr → Grounded (log ++ [(m.tr.posNew, score)]) m'.tr := by
+  unfold ptEvalMember at h
+  cases hm : s.members[s.cur]? with
+  | none => rw [hm] at h; simp at h
+  | some m =>
+    rw [hm] at h
+    simp only at h
+    cases hev : localEvaluate cfg.member { m with tape := tape1 } score with
+    | error e => rw [hev] at h; simp at h
+    | ok m' =>
+      rw [hev] at h
+      simp only [Except.ok.injEq] at h
+      subst h
+      obtain ⟨hsuf2, hil2, accept, htr2⟩ := localEvaluate_spec hev
+      refine ⟨m, _, rfl, rfl, hil2, hsuf2.trans hs1, ?_⟩
+      intro log g
+      simp only
+      rw [htr2]
+      exact grounded_evalWith g cfg.member score accept
+
+theorem ptEvaluate_ok {cfg : PTCfg} {s s' : PopSt} {score : F} (h : ptEvaluate cfg s score = .ok s') :
+    ∃ m m', s.members[s.cur]? = some m ∧ s'.members = s.members.set s.cur m' ∧ m'.initL = m.initL ∧ s'.tape <:+ s.tape ∧
+      ∀ log, Grounded log m.tr → Grounded (log ++ [(m.tr.posNew, score)]) m'.tr := by
   unfold ptEvaluate at h
   simp only at h
   split at h
@@ -87,185 +282,328 @@ theorem ptEvaluate_spec {cfg : PTCfg} {s s' : PopSt} {score : F} (h : ptEvaluate
         split at hsw
         · exact swapDraws_suffix _ _ _ hsw
         · simp only [Except.ok.injEq] at hsw; subst hsw; exact List.suffix_refl _
-      unfold ptEvalMember at h
-      cases hm : s.members[s.cur]? with
-      | none => rw [hm] at h; simp at h
-      | some m =>
-        rw [hm] at h
+      exact ptEvalMember_ok hs1 h
+
+theorem ptIterate_ok {cfg : PTCfg} {sp : Space} {f : Pos → Bool} (hgeo : cfg.member.geo = sp.geo) (hsp : SpaceOK sp)
+    {s s' : PopSt} {p : Pos} (ht : TapeOK sp f s.tape) (h : ptIterate cfg s = .ok (p, s')) :
+    ∃ idx m m', s.members[idx]? = some m ∧ idx < s.members.length ∧
+      s'.members = s.members.set idx m' ∧ m'.initL = m.initL ∧ m'.tr.posNew = some p ∧ SameTracked m.tr m'.tr ∧
+      s'.cur = idx ∧ s'.tape <:+ s.tape ∧ InSpace sp p ∧ f p = true := by
+  unfold ptIterate at h
+  simp only [bind, Except.bind, pure, Except.pure] at h
+  cases hpk : s.pick with
+  | error e => rw [hpk] at h; simp at h
+  | ok x =>
+    obtain ⟨idx, m⟩ := x
+    rw [hpk] at h
+    simp only at h
+    cases hit : localIterate cfg.member { m with tape := s.tape } with
+    | error e => rw [hit] at h; simp at h
+    | ok y =>
+      obtain ⟨q, m'⟩ := y
+      rw [hit] at h
+      simp only [Except.ok.injEq, Prod.mk.injEq] at h
+      obtain ⟨e1, e2⟩ := h
+      subst e1 e2
+      obtain ⟨hget, hidx⟩ := pick_spec hpk
+      obtain ⟨hsuf, _, _, htr, hil, _⟩ := localIterate_spec hit
+      obtain ⟨hin, hfe⟩ := proposal_ok (s := { m with tape := s.tape }) hgeo hsp ht hit
+      exact ⟨idx, m, _, hget, hidx, rfl, hil, by simp only; rw [htr]; rfl,
+        by simp only; rw [htr]; exact sameTracked_trackNewPos _ _, rfl, hsuf, hin, hfe⟩
+
+theorem pt_ok (cfg : PTCfg) (sp : Space) (f : Pos → Bool) (hgeo : cfg.member.geo = sp.geo) (hsp : SpaceOK sp) :
+    PopOK (ptBackend cfg) sp f :=
+  { initPos := fun _ _ _ h => ptInitPos_ok h
+    evalInit := fun _ _ _ h => ptEvalInit_ok h
+    finishInit := fun _ _ h => by simp only [ptBackend, Except.ok.injEq] at h; exact h.symm
+    iterate := fun _ _ _ ht h => ptIterate_ok hgeo hsp ht h
+    evaluate := fun _ _ _ h => ptEvaluate_ok h }
+
+/-! #### particle swarm -/
+
+theorem randomIteration_cases {cfg : LocalCfg} {tape rest : Tape} {p : Pos} {k : Tape → Except Err (Pos × Tape)}
+    (h : randomIteration cfg tape k = .ok (p, rest)) :
+    ∃ x t1, tape = Draw.unif x :: t1 ∧ ((moveRandomLoop t1 = .ok (p, rest)) ∨ k t1 = .ok (p, rest)) := by
+  unfold randomIteration at h
+  split at h
+  · rename_i x t1
+    split at h
+    · exact ⟨x, t1, rfl, Or.inl h⟩
+    · exact ⟨x, t1, rfl, Or.inr h⟩
+  · simp at h
+  · simp at h
+
+theorem movePart_inSpace {sp : Space} (hsp : SpaceOK sp) (p : Pos) (v : List F)
+    (h1 : p.length = sp.dims.length) (h2 : v.length = sp.dims.length) : InSpace sp (movePart p v sp.maxPositions) := by
+  unfold InSpace Space.sizes
+  apply inMax_inSpace
+  apply movePart_inMax p v _ (by simp [Space.maxPositions, h1]) (by simp [Space.maxPositions, h2])
+  intro m hm
+  simp only [Space.maxPositions, List.mem_map] at hm
+  obtain ⟨d, hd, rfl⟩ := hm
+  have := hsp d hd
+  omega
+
+theorem spiralClip_inSpace {sp : Space} (hsp : SpaceOK sp) (v : List F) (hlen : v.length = sp.dims.length) (hn : noNan v = true) :
+    InSpace sp (spiralClip v sp.maxPositions) := by
+  unfold InSpace Space.sizes
+  apply inMax_inSpace
+  apply spiralClip_inMax v _ (by simp [Space.maxPositions, hlen]) _ hn
+  intro m hm
+  simp only [Space.maxPositions, List.mem_map] at hm
+  obtain ⟨d, hd, rfl⟩ := hm
+  have := hsp d hd
+  omega
+
+/-- the first proposal of a particle: in the space, the tape only consumed -/
+theorem moveLinear_ok {cfg : LocalCfg} {sp : Space} {f : Pos → Bool} (hgeo : cfg.geo = sp.geo) (hsp : SpaceOK sp)
+    {m : Local} {tape rest : Tape} {p : Pos} (ht : TapeOK sp f tape) (h : moveLinear cfg m tape = .ok (p, rest)) :
+    rest <:+ tape ∧ InSpace sp p := by
+  unfold moveLinear at h
+  obtain ⟨x, t1, rfl, hc | hc⟩ := randomIteration_cases h
+  · obtain ⟨a, b, _⟩ := moveRandomLoop_spec hc
+    exact ⟨a.trans (List.suffix_cons _ _), ht.rnd p (List.mem_cons_of_mem _ b)⟩
+  · split at hc
+    · rename_i pos velo rest'
+      split at hc
+      · simp at hc
+      · simp only [Except.ok.injEq, Prod.mk.injEq] at hc
+        obtain ⟨e1, e2⟩ := hc
+        subst e1 e2
+        obtain ⟨l1, l2⟩ := ht.part pos velo (by simp)
+        refine ⟨(List.suffix_cons _ _).trans (List.suffix_cons _ _), ?_⟩
+        rw [hgeo]; exact movePart_inSpace hsp pos velo l1 l2
+    · simp at hc
+    · simp at hc
+
+theorem moveSpiral_ok {cfg : LocalCfg} {sp : Space} {f : Pos → Bool} (hgeo : cfg.geo = sp.geo) (hsp : SpaceOK sp)
+    {tape rest : Tape} {p : Pos} (ht : TapeOK sp f tape) (h : moveSpiral cfg tape = .ok (p, rest)) :
+    rest <:+ tape ∧ InSpace sp p := by
+  unfold moveSpiral at h
+  obtain ⟨x, t1, rfl, hc | hc⟩ := randomIteration_cases h
+  · obtain ⟨a, b, _⟩ := moveRandomLoop_spec hc
+    exact ⟨a.trans (List.suffix_cons _ _), ht.rnd p (List.mem_cons_of_mem _ b)⟩
+  · split at hc
+    · rename_i v rest'
+      simp only [Except.ok.injEq, Prod.mk.injEq] at hc
+      obtain ⟨e1, e2⟩ := hc
+      subst e1 e2
+      obtain ⟨l1, l2⟩ := ht.spiral v (by simp)
+      refine ⟨(List.suffix_cons _ _).trans (List.suffix_cons _ _), ?_⟩
+      rw [hgeo]; exact spiralClip_inSpace hsp v l1 l2
+    · simp at hc
+    · simp at hc
+
+theorem askFeas_spec {p : Pos} {tape rest : Tape} {ok : Bool} (h : askFeas p tape = .ok (ok, rest)) :
+    tape = Draw.feas p ok :: rest := by
+  unfold askFeas at h
+  split at h
+  · rename_i q ok' rest'
+    split at h
+    · simp at h
+    · rename_i hq
+      simp only [Except.ok.injEq, Prod.mk.injEq] at h
+      obtain ⟨h1, h2⟩ := h
+      have : q = p := by simpa using hq
+      subst h1 h2 this
+      rfl
+  · simp at h
+  · simp at h
+
+theorem psoIterate_ok {cfg : LocalCfg} {sp : Space} {f : Pos → Bool} (hgeo : cfg.geo = sp.geo) (hsp : SpaceOK sp)
+    {s s' : PopSt} {p : Pos} (ht : TapeOK sp f s.tape) (h : psoIterate cfg s = .ok (p, s')) :
+    ∃ idx m m', s.members[idx]? = some m ∧ idx < s.members.length ∧
+      s'.members = s.members.set idx m' ∧ m'.initL = m.initL ∧ m'.tr.posNew = some p ∧ SameTracked m.tr m'.tr ∧
+      s'.cur = idx ∧ s'.tape <:+ s.tape ∧ InSpace sp p ∧ f p = true := by
+  unfold psoIterate at h
+  simp only [bind, Except.bind, pure, Except.pure] at h
+  cases hpk : s.pick with
+  | error e => rw [hpk] at h; simp at h
+  | ok x =>
+    obtain ⟨idx, m⟩ := x
+    rw [hpk] at h
+    simp only at h
+    obtain ⟨hget, hidx⟩ := pick_spec hpk
+    cases hml : moveLinear cfg m s.tape with
+    | error e => rw [hml] at h; simp at h
+    | ok y =>
+      obtain ⟨q, tape1⟩ := y
+      rw [hml] at h
+      simp only at h
+      obtain ⟨hs1, hin1⟩ := moveLinear_ok hgeo hsp ht hml
+      cases haf : askFeas q tape1 with
+      | error e => rw [haf] at h; simp at h
+      | ok z =>
+        obtain ⟨ok, tape2⟩ := z
+        rw [haf] at h
         simp only at h
-        cases hev : localEvaluate cfg.member { m with tape := tape1 } score with
-        | error e => rw [hev] at h; simp at h
-        | ok m' =>
-          rw [hev] at h
-          simp only [Except.ok.injEq] at h
-          subst h
-          exact ⟨m, tape1, m', rfl, hs1, hev, rfl, rfl⟩
+        have e := askFeas_spec haf
+        have hs2 : tape2 <:+ s.tape := (by rw [e]; exact List.suffix_cons _ _ : tape2 <:+ tape1).trans hs1
+        by_cases hok : ok = true
+        · simp only [hok, if_true, Except.ok.injEq, Prod.mk.injEq] at h
+          obtain ⟨e1, e2⟩ := h
+          subst e1 e2
+          have hfe : f q = true := by
+            have := ht.feas q ok (hs1.subset (by rw [e]; simp)); rw [← this]; exact hok
+          exact ⟨idx, m, _, hget, hidx, rfl, rfl, rfl, sameTracked_trackNewPos _ _, rfl, hs2, hin1, hfe⟩
+        · simp only [hok, Bool.false_eq_true, if_false] at h
+          cases hmc : moveClimb cfg.geo (some q) (some 1) tape2 with
+          | error e' => rw [hmc] at h; simp at h
+          | ok w =>
+            obtain ⟨q2, tape3⟩ := w
+            rw [hmc] at h
+            simp only [Except.ok.injEq, Prod.mk.injEq] at h
+            obtain ⟨e1, e2⟩ := h
+            subst e1 e2
+            obtain ⟨a, b, c⟩ := moveClimb_spec hmc
+            have ht2 := ht.suffix hs2
+            have hfe : f q2 = true := (ht2.feas q2 true b).symm
+            have hin : InSpace sp q2 := by
+              cases c with
+              | random hr => exact ht2.rnd q2 hr
+              | clipped l v hd hp =>
+                obtain ⟨hlen, hn⟩ := ht2.dist l v hd
+                rw [hp, hgeo]; exact clipped_inSpace hsp v hlen hn
+            exact ⟨idx, m, _, hget, hidx, rfl, rfl, rfl,
+              { pb := rfl, sb := rfl, pc := rfl, sc := rfl, pv := rfl, sv := rfl }, rfl, a.trans hs2, hin, hfe⟩
 
-theorem mem_set_cases {α : Type} {ms : List α} {idx : Nat} {a x : α} (h : x ∈ ms.set idx a) : x = a ∨ x ∈ ms := by
-  rcases List.mem_or_eq_of_mem_set h with h | h
-  · exact Or.inr h
-  · exact Or.inl h
+theorem pso_ok (cfg : LocalCfg) (sp : Space) (f : Pos → Bool) (hgeo : cfg.geo = sp.geo) (hsp : SpaceOK sp) :
+    PopOK (psoBackend cfg) sp f :=
+  { initPos := fun _ _ _ h => ptInitPos_ok h
+    evalInit := fun _ _ _ h => ptEvalInit_ok h
+    finishInit := fun _ _ h => by simp only [psoBackend, Except.ok.injEq] at h; exact h.symm
+    iterate := fun _ _ _ ht h => psoIterate_ok hgeo hsp ht h
+    evaluate := fun _ _ _ h => ptEvalMember_ok (List.suffix_refl _) h }
 
-/-- one driver step of the complete population optimizer keeps the invariant and emits a feasible position of the space -/
-theorem step_inv {cfg : PTCfg} {sp : Space} {obj : Obj} {c : Call} {f : Pos → Bool} {tape0 : Tape} {inits0 : List (List Pos)}
-    (hgeo : cfg.member.geo = sp.geo) (hsp : SpaceOK sp) (ht : TapeOK sp f tape0)
-    (hi : ∀ l ∈ inits0, ∀ q ∈ l, InSpace sp q ∧ f q = true)
-    (i : Nat) (d d1 : DState PopSt) (cs cs1 : CState) (p : Pos) (v : Value) (e : Eval)
-    (hP : Inv tape0 inits0 d) (sf : StepFacts sp obj c i d d1 cs cs1 p v e)
-    (hb : BStep (ptBackend cfg) (i < cs.nInitsNorm) d.bst d1.bst p e.res.score) :
-    Inv tape0 inits0 d1 ∧ (InSpace sp p ∧ f p = true) := by
-  have hlog := evalLog_append hP.len sf.posL sf.scoreL
-  have hlen : d1.posL.length = d1.scoreL.length := by rw [sf.posL, sf.scoreL]; simp [hP.len]
-  rcases hb with ⟨_, s1, h1, h2⟩ | ⟨_, s0, s1, h0, h1, h2⟩
-  · -- start-up step
-    have h1' : ptInitPos d.bst = .ok (p, s1) := h1
-    unfold ptInitPos at h1'
-    simp only [bind, Except.bind, pure, Except.pure] at h1'
-    cases hpk : d.bst.pick with
-    | error e' => rw [hpk] at h1'; simp at h1'
-    | ok x =>
-      obtain ⟨idx, m⟩ := x
-      rw [hpk] at h1'
-      simp only at h1'
-      cases hip : localInitPos m with
-      | error e' => rw [hip] at h1'; simp at h1'
-      | ok y =>
-        obtain ⟨q, m'⟩ := y
-        rw [hip] at h1'
-        simp only [Except.ok.injEq, Prod.mk.injEq] at h1'
-        obtain ⟨e1, e2⟩ := h1'
-        subst e1 e2
-        obtain ⟨hget, hidx⟩ := pick_spec hpk
-        obtain ⟨hq, _, htr, hil, _⟩ := localInitPos_spec hip
-        -- evaluate_init on the member just picked
-        have h2' : ptEvalInit _ e.res.score = .ok d1.bst := h2
-        unfold ptEvalInit at h2'
-        simp only [List.getElem?_set_self hidx] at h2'
-        simp only [Except.ok.injEq] at h2'
-        have hmemq : q ∈ m.initL := List.mem_of_getElem? hq
-        have hml : m.initL ∈ inits0 := by
-          rw [← hP.inits]; exact List.mem_map.mpr ⟨m, List.mem_of_getElem? hget, rfl⟩
-        refine ⟨{ tape := ?_, inits := ?_, len := hlen, grounded := ?_ }, hi _ hml q hmemq⟩
-        · rw [← h2']; exact hP.tape
-        · rw [← h2']
-          simp only [List.set_set]
-          rw [map_initL_set d.bst.members idx m _ hget (by simp [hil])]
-          exact hP.inits
-        · rw [← h2', hlog]
-          simp only [List.set_set]
-          intro x hx
-          rcases mem_set_cases hx with hx | hx
-          · subst hx
-            simp only
-            have g1 := grounded_trackNewPos (hP.grounded m (List.mem_of_getElem? hget)) q
-            have := grounded_evaluateInit (t := m'.tr) (by rw [htr]; exact g1) e.res.score
-            rw [htr] at this ⊢
-            simpa [Tracker.trackNewPos] using this
-          · exact (hP.grounded x hx).mono _
-  · -- iteration step
-    have hs0 : s0 = d.bst := by
-      rcases h0 with h0 | h0
-      · exact h0
-      · simp only [ptBackend, Except.ok.injEq] at h0; exact h0.symm
-    subst hs0
-    have h1' : ptIterate cfg d.bst = .ok (p, s1) := h1
-    unfold ptIterate at h1'
-    simp only [bind, Except.bind, pure, Except.pure] at h1'
-    cases hpk : d.bst.pick with
-    | error e' => rw [hpk] at h1'; simp at h1'
-    | ok x =>
-      obtain ⟨idx, m⟩ := x
-      rw [hpk] at h1'
-      simp only at h1'
-      cases hit : localIterate cfg.member { m with tape := d.bst.tape } with
-      | error e' => rw [hit] at h1'; simp at h1'
-      | ok y =>
-        obtain ⟨q, m'⟩ := y
-        rw [hit] at h1'
-        simp only [Except.ok.injEq, Prod.mk.injEq] at h1'
-        obtain ⟨e1, e2⟩ := h1'
-        subst e1 e2
-        obtain ⟨hget, hidx⟩ := pick_spec hpk
-        obtain ⟨hsuf, _, _, htr, hil, _⟩ := localIterate_spec hit
-        have hgood := proposal_ok (s := { m with tape := d.bst.tape }) hgeo hsp (ht.suffix hP.tape) hit
-        have h2' : ptEvaluate cfg _ e.res.score = .ok d1.bst := h2
-        obtain ⟨mm, tape1, m2, hmm, hs1, hev, hmem2, htape2⟩ := ptEvaluate_spec h2'
-        simp only [List.getElem?_set_self hidx, Option.some.injEq] at hmm
-        subst hmm
-        obtain ⟨hsuf2, hil2, accept, htr2⟩ := localEvaluate_spec hev
-        simp only at hs1 hsuf2 hil2 htr2
-        refine ⟨{ tape := ?_, inits := ?_, len := hlen, grounded := ?_ }, hgood⟩
-        · rw [htape2]; exact ((hsuf2.trans hs1).trans hsuf).trans hP.tape
-        · rw [hmem2]
-          simp only [List.set_set]
-          rw [map_initL_set d.bst.members idx m _ hget (by simp [hil2, hil])]
-          exact hP.inits
-        · rw [hmem2, hlog]
-          simp only [List.set_set]
-          intro x hx
-          rcases mem_set_cases hx with hx | hx
-          · subst hx
-            simp only
-            rw [htr2]
-            have g1 : Grounded (evalLog d) m'.tr := by
-              rw [htr]; exact grounded_trackNewPos (hP.grounded m (List.mem_of_getElem? hget)) q
-            have := grounded_evalWith g1 cfg.member e.res.score accept
-            rw [htr] at this ⊢
-            simpa [Tracker.trackNewPos] using this
-          · exact (hP.grounded x hx).mono _
+/-! #### spiral -/
 
-/-- C01 + C02 + C19 for one `search()` call of the complete parallel tempering optimizer -/
-theorem pt_call {cfg : PTCfg} {sp : Space} {obj : Obj} {c : Call} {f : Pos → Bool} {tape0 : Tape} {inits0 : List (List Pos)}
-    {d d' : DState PopSt} {r : CallResult}
-    (hgeo : cfg.member.geo = sp.geo) (hsp : SpaceOK sp) (ht : TapeOK sp f tape0)
-    (hi : ∀ l ∈ inits0, ∀ q ∈ l, InSpace sp q ∧ f q = true)
-    (hP : Inv tape0 inits0 d) (hn : 0 < c.nIter)
-    (h : searchCall (ptBackend cfg) sp obj c d = .ok (d', r)) :
-    Inv tape0 inits0 d' ∧ ∀ p ∈ C04.newPos d d', InSpace sp p ∧ f p = true := by
-  obtain ⟨cs, d1, cs1, tr, _, hfin, T, hP1, hQ⟩ :=
-    searchCall_inv (P := fun d _ => Inv tape0 inits0 d) (Q := fun t => InSpace sp t.pos ∧ f t.pos = true)
-      (fun i d d1 cs cs1 p v e hp sf hb => step_inv hgeo hsp ht hi i d d1 cs cs1 p v e hp sf hb) h hn (fun _ _ => hP)
-  obtain ⟨hrows, hposL, hscoreL, _, _, _, _, _, _, _, hbst, _⟩ := finishSearch_ok hfin
-  constructor
-  · exact { tape := by rw [hbst]; exact hP1.tape, inits := by rw [hbst]; exact hP1.inits
-            len := by rw [hposL, hscoreL]; exact hP1.len
-            grounded := by
-              have := hP1.grounded
-              unfold evalLog at this ⊢
-              rw [hposL, hscoreL, hbst]; exact this }
-  · intro p hp
-    unfold C04.newPos at hp
-    rw [hposL, T.posL] at hp
-    simp only [List.drop_left] at hp
-    obtain ⟨t, ht', rfl⟩ := List.mem_map.mp hp
-    exact hQ t ht'
+theorem spiralIterate_ok {cfg : LocalCfg} {sp : Space} {f : Pos → Bool} (hgeo : cfg.geo = sp.geo) (hsp : SpaceOK sp)
+    {s s' : PopSt} {p : Pos} (ht : TapeOK sp f s.tape) (h : spiralIterate cfg s = .ok (p, s')) :
+    ∃ idx m m', s.members[idx]? = some m ∧ idx < s.members.length ∧
+      s'.members = s.members.set idx m' ∧ m'.initL = m.initL ∧ m'.tr.posNew = some p ∧ SameTracked m.tr m'.tr ∧
+      s'.cur = idx ∧ s'.tape <:+ s.tape ∧ InSpace sp p ∧ f p = true := by
+  unfold spiralIterate at h
+  simp only [bind, Except.bind, pure, Except.pure] at h
+  cases hpk : s.pick with
+  | error e => rw [hpk] at h; simp at h
+  | ok x =>
+    obtain ⟨idx, m⟩ := x
+    rw [hpk] at h
+    simp only at h
+    obtain ⟨hget, hidx⟩ := pick_spec hpk
+    cases hml : moveSpiral cfg s.tape with
+    | error e => rw [hml] at h; simp at h
+    | ok y =>
+      obtain ⟨q, tape1⟩ := y
+      rw [hml] at h
+      simp only at h
+      obtain ⟨hs1, hin1⟩ := moveSpiral_ok hgeo hsp ht hml
+      cases haf : askFeas q tape1 with
+      | error e => rw [haf] at h; simp at h
+      | ok z =>
+        obtain ⟨ok, tape2⟩ := z
+        rw [haf] at h
+        simp only at h
+        have e := askFeas_spec haf
+        have hs2 : tape2 <:+ s.tape := (by rw [e]; exact List.suffix_cons _ _ : tape2 <:+ tape1).trans hs1
+        by_cases hok : ok = true
+        · simp only [hok, if_true, Except.ok.injEq, Prod.mk.injEq] at h
+          obtain ⟨e1, e2⟩ := h
+          subst e1 e2
+          have hfe : f q = true := by
+            have := ht.feas q ok (hs1.subset (by rw [e]; simp)); rw [← this]; exact hok
+          exact ⟨idx, m, _, hget, hidx, rfl, rfl, rfl, sameTracked_trackNewPos _ _, rfl, hs2, hin1, hfe⟩
+        · simp only [hok, Bool.false_eq_true, if_false] at h
+          cases hit : localIterate cfg { ({ m with tr := m.tr.trackNewPos q } : Local) with tape := tape2 } with
+          | error e' => rw [hit] at h; simp at h
+          | ok w =>
+            obtain ⟨q2, m2⟩ := w
+            rw [hit] at h
+            simp only [Except.ok.injEq, Prod.mk.injEq] at h
+            obtain ⟨e1, e2⟩ := h
+            subst e1 e2
+            obtain ⟨hsuf, _, _, htr, hil, _⟩ := localIterate_spec hit
+            obtain ⟨hin, hfe⟩ := proposal_ok (s := { ({ m with tr := m.tr.trackNewPos q } : Local) with tape := tape2 })
+              hgeo hsp (ht.suffix hs2) hit
+            exact ⟨idx, m, _, hget, hidx, rfl, hil, by simp only; rw [htr]; rfl,
+              by simp only; rw [htr]
+                 exact { pb := rfl, sb := rfl, pc := rfl, sc := rfl, pv := rfl, sv := rfl },
+              rfl, hsuf.trans hs2, hin, hfe⟩
 
+theorem spiralEvaluate_ok {s s' : PopSt} {score : F} (h : spiralEvaluate s score = .ok s') :
+    ∃ m m', s.members[s.cur]? = some m ∧ s'.members = s.members.set s.cur m' ∧ m'.initL = m.initL ∧ s'.tape <:+ s.tape ∧
+      ∀ log, Grounded log m.tr → Grounded (log ++ [(m.tr.posNew, score)]) m'.tr := by
+  unfold spiralEvaluate at h
+  cases hm : s.members[s.cur]? with
+  | none => rw [hm] at h; simp at h
+  | some m =>
+    rw [hm] at h
+    simp only [Except.ok.injEq] at h
+    subst h
+    exact ⟨m, _, rfl, rfl, rfl, List.suffix_refl _, fun log g => grounded_spiralEvaluate g score⟩
+
+theorem spiral_ok (cfg : LocalCfg) (sp : Space) (f : Pos → Bool) (hgeo : cfg.geo = sp.geo) (hsp : SpaceOK sp) :
+    PopOK (spiralBackend cfg) sp f :=
+  { initPos := fun _ _ _ h => ptInitPos_ok h
+    evalInit := fun _ _ _ h => ptEvalInit_ok h
+    finishInit := fun _ _ h => by simp only [spiralBackend, Except.ok.injEq] at h; exact h.symm
+    iterate := fun _ _ _ ht h => spiralIterate_ok hgeo hsp ht h
+    evaluate := fun _ _ _ h => spiralEvaluate_ok h }
+
+/-! ### the property theorems -/
+
+/-- C01 + C02, parallel tempering -/
 theorem C01_C02_pt_positions {cfg : PTCfg} {sp : Space} {obj : Obj} {c : Call} {f : Pos → Bool} {tape0 : Tape}
     {inits0 : List (List Pos)} {d d' : DState PopSt} {r : CallResult}
     (hgeo : cfg.member.geo = sp.geo) (hsp : SpaceOK sp) (ht : TapeOK sp f tape0)
     (hi : ∀ l ∈ inits0, ∀ q ∈ l, InSpace sp q ∧ f q = true)
     (hP : Inv tape0 inits0 d) (hn : 0 < c.nIter) (h : searchCall (ptBackend cfg) sp obj c d = .ok (d', r)) :
     ∀ p ∈ C04.newPos d d', InSpace sp p ∧ f p = true :=
-  (pt_call hgeo hsp ht hi hP hn h).2
+  (pop_call (pt_ok cfg sp f hgeo hsp) ht hi hP hn h).2
 
-/-- C19 for every system of the population -/
+/-- C19, every system of a parallel tempering population -/
 theorem C19_pt_members_grounded {cfg : PTCfg} {sp : Space} {obj : Obj} {c : Call} {f : Pos → Bool} {tape0 : Tape}
     {inits0 : List (List Pos)} {d d' : DState PopSt} {r : CallResult}
     (hgeo : cfg.member.geo = sp.geo) (hsp : SpaceOK sp) (ht : TapeOK sp f tape0)
     (hi : ∀ l ∈ inits0, ∀ q ∈ l, InSpace sp q ∧ f q = true)
     (hP : Inv tape0 inits0 d) (hn : 0 < c.nIter) (h : searchCall (ptBackend cfg) sp obj c d = .ok (d', r)) :
     ∀ m ∈ d'.bst.members, Grounded (evalLog d') m.tr :=
-  (pt_call hgeo hsp ht hi hP hn h).1.grounded
+  (pop_call (pt_ok cfg sp f hgeo hsp) ht hi hP hn h).1.grounded
 
-/-- a freshly constructed population satisfies the invariant -/
-theorem inv_fresh (nInits : Nat) (inits : List (List Pos)) (tape : Tape) :
-    Inv tape inits ({ nInits := nInits, bst := { members := inits.map (fun l => { initL := l }), tape := tape } } : DState PopSt) :=
-  { tape := List.suffix_refl _
-    inits := by simp [List.map_map, Function.comp_def]
-    len := rfl
-    grounded := by
-      intro m hm
-      obtain ⟨l, _, rfl⟩ := List.mem_map.mp hm
-      simpa [evalLog] using grounded_fresh }
+/-- C01 + C02, particle swarm (linear move, outer constraint check, `move_climb` fallback) -/
+theorem C01_C02_pso_positions {cfg : LocalCfg} {sp : Space} {obj : Obj} {c : Call} {f : Pos → Bool} {tape0 : Tape}
+    {inits0 : List (List Pos)} {d d' : DState PopSt} {r : CallResult}
+    (hgeo : cfg.geo = sp.geo) (hsp : SpaceOK sp) (ht : TapeOK sp f tape0)
+    (hi : ∀ l ∈ inits0, ∀ q ∈ l, InSpace sp q ∧ f q = true)
+    (hP : Inv tape0 inits0 d) (hn : 0 < c.nIter) (h : searchCall (psoBackend cfg) sp obj c d = .ok (d', r)) :
+    ∀ p ∈ C04.newPos d d', InSpace sp p ∧ f p = true :=
+  (pop_call (pso_ok cfg sp f hgeo hsp) ht hi hP hn h).2
+
+/-- C19, every particle: the fallback position is what the particle records (fix d993248) -/
+theorem C19_pso_members_grounded {cfg : LocalCfg} {sp : Space} {obj : Obj} {c : Call} {f : Pos → Bool} {tape0 : Tape}
+    {inits0 : List (List Pos)} {d d' : DState PopSt} {r : CallResult}
+    (hgeo : cfg.geo = sp.geo) (hsp : SpaceOK sp) (ht : TapeOK sp f tape0)
+    (hi : ∀ l ∈ inits0, ∀ q ∈ l, InSpace sp q ∧ f q = true)
+    (hP : Inv tape0 inits0 d) (hn : 0 < c.nIter) (h : searchCall (psoBackend cfg) sp obj c d = .ok (d', r)) :
+    ∀ m ∈ d'.bst.members, Grounded (evalLog d') m.tr :=
+  (pop_call (pso_ok cfg sp f hgeo hsp) ht hi hP hn h).1.grounded
+
+/-- C01 + C02, spiral optimization -/
+theorem C01_C02_spiral_positions {cfg : LocalCfg} {sp : Space} {obj : Obj} {c : Call} {f : Pos → Bool} {tape0 : Tape}
+    {inits0 : List (List Pos)} {d d' : DState PopSt} {r : CallResult}
+    (hgeo : cfg.geo = sp.geo) (hsp : SpaceOK sp) (ht : TapeOK sp f tape0)
+    (hi : ∀ l ∈ inits0, ∀ q ∈ l, InSpace sp q ∧ f q = true)
+    (hP : Inv tape0 inits0 d) (hn : 0 < c.nIter) (h : searchCall (spiralBackend cfg) sp obj c d = .ok (d', r)) :
+    ∀ p ∈ C04.newPos d d', InSpace sp p ∧ f p = true :=
+  (pop_call (spiral_ok cfg sp f hgeo hsp) ht hi hP hn h).2
+
+/-- C19, every spiral member -/
+theorem C19_spiral_members_grounded {cfg : LocalCfg} {sp : Space} {obj : Obj} {c : Call} {f : Pos → Bool} {tape0 : Tape}
+    {inits0 : List (List Pos)} {d d' : DState PopSt} {r : CallResult}
+    (hgeo : cfg.geo = sp.geo) (hsp : SpaceOK sp) (ht : TapeOK sp f tape0)
+    (hi : ∀ l ∈ inits0, ∀ q ∈ l, InSpace sp q ∧ f q = true)
+    (hP : Inv tape0 inits0 d) (hn : 0 < c.nIter) (h : searchCall (spiralBackend cfg) sp obj c d = .ok (d', r)) :
+    ∀ m ∈ d'.bst.members, Grounded (evalLog d') m.tr :=
+  (pop_call (spiral_ok cfg sp f hgeo hsp) ht hi hP hn h).1.grounded
 
 end GFO.PopRuns
